@@ -264,9 +264,11 @@ class DelAttrMethod(MethodDescriptor):
 
             attr_spec = self.__spec_class__.attrs.get(attr)
 
-            # Look up the default exactly as the constructor does: default
-            # factories are evaluated and overrides of the class attribute in
-            # (plain) subclasses are respected. The value is a fresh copy.
+            # Look up the default where the constructor does: default factories
+            # are evaluated and overrides of the class attribute in (plain)
+            # subclasses are respected. The value is a fresh copy. (No preparer
+            # is run, so that resetting dependants during invalidation does not
+            # invoke user callbacks.)
             default = MISSING
             if not force and attr_spec and not attr_spec.is_masked:
                 default = attr_spec.lookup_default_value(type(self))
@@ -277,8 +279,13 @@ class DelAttrMethod(MethodDescriptor):
                     invalidate_attrs(self, attr)
                 return None
 
-            return self.__setattr__(
-                attr, default, force=True, skip_invalidation=skip_invalidation
+            return mutate_attr(
+                obj=self,
+                attr=attr,
+                value=default,
+                inplace=True,
+                force=True,
+                skip_invalidation=skip_invalidation,
             )
 
         # Add reference to original __delattr__
